@@ -20,7 +20,7 @@ ASSUMPTIONS = [
     "faults are injected only where user code can put one (task bodies, flush bodies, value providers)",
     "fault positions are exhaustive per base program for single faults; bases and fault pairs are sampled",
 ]
-UNIT_TIMEOUT = {"quick": 240, "thorough": 2400}
+UNIT_TIMEOUT = {"quick": 150, "thorough": 2400}
 
 BASE = gen.profile(
     max_nodes=7,
